@@ -89,7 +89,7 @@ func c20Run(c c20Case, st *fw.Stats) []fw.Viol {
 	switch c.Kind {
 	case "auth":
 		accounts := c20Accounts[c.Accounts]
-		for _, placement := range []string{"route", "global", "group", "global+405", "global+404", "route-dynamic-cached", "route-dynamic-cached-repeat", "nested-group-siblings", "group-use-siblings", "nested-group-siblings-single-mw", "group-use-siblings-single-mw", "global-two-gates", "group-use-two-gates", "banner-then-gate"} {
+		for _, placement := range []string{"route", "global", "group", "global+405", "global+404", "route-dynamic-cached", "route-dynamic-cached-repeat", "nested-group-siblings", "group-use-siblings", "nested-group-siblings-single-mw", "group-use-siblings-single-mw", "global-two-gates", "group-use-two-gates", "banner-then-gate", "late-global-gate", "forwarded-to-gated-route"} {
 			for _, hdr := range c20Auth {
 				st.Evals++
 				st.Nontrivial++
@@ -144,6 +144,20 @@ func c20Run(c c20Case, st *fw.Stats) []fw.Viol {
 						r.GET("/t", main, sibling)
 						r.GET("/u", main, sibling)
 					})
+				case "late-global-gate":
+					// the route has already served a request when the global gate is installed
+					r.GET("/s", main, after)
+					_ = try(func() { r.ServeHTTP(httptest.NewRecorder(), httptest.NewRequest("GET", "/s", nil)) })
+					trace = nil
+					r.Use(auth)
+				case "forwarded-to-gated-route":
+					// the request reaches the gated route through a middleware of ANOTHER route that re-dispatches it with
+					// HandleContext (the forwarder is not the last handler of its own chain)
+					r.GET("/s", main, auth, after)
+					r.GET("/fwd", func(ctx *rux.Context) {}, func(ctx *rux.Context) {
+						ctx.Req.URL.Path = "/s"
+						ctx.Router().HandleContext(ctx)
+					}, pass)
 				case "banner-then-gate":
 					// an upstream middleware has already sent body bytes when the gate decides
 					r.Use(func(ctx *rux.Context) { ctx.WriteString("banner;") })
@@ -188,6 +202,9 @@ func c20Run(c c20Case, st *fw.Stats) []fw.Viol {
 					req = httptest.NewRequest("GET", "/s/7", nil)
 				case "nested-group-siblings", "group-use-siblings", "nested-group-siblings-single-mw", "group-use-siblings-single-mw", "group-use-two-gates":
 					req = httptest.NewRequest("GET", "/in/s", nil)
+				}
+				if placement == "forwarded-to-gated-route" {
+					req = httptest.NewRequest("GET", "/fwd", nil)
 				}
 				if placement == "global+405" {
 					req = httptest.NewRequest("DELETE", "/s", nil)
@@ -468,7 +485,7 @@ func c20Run(c c20Case, st *fw.Stats) []fw.Viol {
 var c20Spec = fw.Spec[c20Case]{
 	ID:    "C20",
 	Level: "model_checking",
-	Rule: "complete decision tables: HTTPBasicAuth: 6 account maps (nil, empty, one user, empty password, two users, password containing ':') x 27 Authorization values (incl. the full square of known / unknown / empty users x matching / other / empty passwords) (absent, valid, wrong password, unknown user, empty user / password, no colon, bare scheme, bad base64, scheme in other case, other scheme, double space, padding, leading space, case-changed user, empty) x 14 placements (behind a middleware that has already written body bytes; two gates registered from one call site with Router.Use, globally and inside a group; route, global, group middleware; global gate in front of the not-allowed and of the not-found handlers; a dynamic route on a caching router, first request and repeat after a valid one filled the cache; route-level gate of the first of several sibling routes inside nested groups / inside a group with three Use calls, with two and with exactly one route-level middleware per sibling); " +
+	Rule: "complete decision tables: HTTPBasicAuth: 6 account maps (nil, empty, one user, empty password, two users, password containing ':') x 27 Authorization values (incl. the full square of known / unknown / empty users x matching / other / empty passwords) (absent, valid, wrong password, unknown user, empty user / password, no colon, bare scheme, bad base64, scheme in other case, other scheme, double space, padding, leading space, case-changed user, empty) x 16 placements (a global gate installed after the route served its first request; the gated route reached through another route's middleware that re-dispatches with HandleContext; behind a middleware that has already written body bytes; two gates registered from one call site with Router.Use, globally and inside a group; route, global, group middleware; global gate in front of the not-allowed and of the not-found handlers; a dynamic route on a caching router, first request and repeat after a valid one filled the cache; route-level gate of the first of several sibling routes inside nested groups / inside a group with three Use calls, with two and with exactly one route-level middleware per sibling); " +
 		"HTTPMethodOverrideHandler: 10 request methods x 13 override values x 6 carriers (none, header, query, body, header+query agreeing, header+body disagreeing - the last for totality only); WrapHTTPHandlers: lists of 1..4 distinguishable wrappers (+ the override gate in the list); WrapHTTPHandler / WrapHTTPHandlerFunc and their four aliases at every subset of positions of chains n<=4; every row is non-trivial",
 	Assume: []string{"'well-formed Basic credentials' = scheme Basic (any case), one space, valid base64, a colon in the decoded text", "when both override carriers disagree the statement does not say which wins; those rows are executed but not asserted"},
 	Bounds: func(tier string) map[string]any {
